@@ -21,14 +21,14 @@ if [ "$confirm" = "--confirm" ]; then
 	dfile=${demo%%|*}; rest=${demo#*|}; dcopy=${rest%%|*}; drun=${rest#*|}
 	cp "$dir/$dfile" "$wt/$dcopy"
 	( cd "$wt" && timeout 600 bash -c "$drun" ) >"$side/demo-clean.log" 2>&1; clean=$?
-	git -C "$wt" apply "$(pwd)/$dir/patch.diff" || { echo "SEEDED $id: patch does not apply"; exit 2; }
+	git -C "$wt" apply "$(pwd)/$dir/patch.diff" 2>/dev/null || git -C "$wt" apply --3way "$(pwd)/$dir/patch.diff" || { echo "SEEDED $id: patch does not apply"; exit 2; }
 	( cd "$wt" && timeout 600 bash -c "$drun" ) >"$side/demo-seeded.log" 2>&1; seeded=$?
 	rm -f "$wt/$dcopy"
 	( cd "$wt" && timeout 900 go build ./... && timeout 1500 go test -vet=off -count=1 ./... ) >"$side/suite.log" 2>&1; suite=$?
 	echo "CONFIRM $id: demo_without_change_exit=$clean demo_with_change_exit=$seeded suite_with_change_exit=$suite"
 	if [ $clean -ne 0 ] || [ $seeded -eq 0 ] || [ $suite -ne 0 ]; then echo "CONFIRM $id: NOT CONFIRMED"; tail -5 "$side/suite.log"; fi
 else
-	git -C "$wt" apply "$(pwd)/$dir/patch.diff" || { echo "SEEDED $id: patch does not apply"; exit 2; }
+	git -C "$wt" apply "$(pwd)/$dir/patch.diff" 2>/dev/null || git -C "$wt" apply --3way "$(pwd)/$dir/patch.diff" || { echo "SEEDED $id: patch does not apply"; exit 2; }
 fi
 VERIF_REPO="$wt" VERIF_BIN="$side" ./check "$prop" "$tier" > "$side/check.log" 2>&1; rc=$?
 key=$(grep -m3 -o "key=[^ ]*" "$side/check.log" | tr '\n' ' ')
